@@ -873,6 +873,56 @@ func c03Muts() []c03Mut {
 			c03Mut{"line.function" + sfx, func(p *c03Pool) { p.ls[1].lines[ln].f = 3 }},
 		)
 	}
+	// one attribute apart where the two values are the EMPTY one and the one EQUAL TO ANOTHER FIELD of the
+	// same entity (system name == name vs no system name, file == name vs no file, ...): the shapes a key
+	// that abbreviates "redundant" fields confuses.  both edits the shared base function first.
+	both := func(line int, edBase, edVar func(f *c03F)) func(p *c03Pool) {
+		return func(p *c03Pool) {
+			edBase(&p.fs[p.ls[1].lines[line].f])
+			withF(line, edVar)(p)
+		}
+	}
+	for _, ln := range []int{0, 2} {
+		ln := ln
+		sfx := fmt.Sprintf("@%d", ln)
+		ms = append(ms,
+			c03Mut{"fn.sys-eq-name-vs-empty" + sfx, both(ln, func(f *c03F) { f.sys = f.name }, func(f *c03F) { f.sys = "" })},
+			c03Mut{"fn.sys-eq-file-vs-empty" + sfx, both(ln, func(f *c03F) { f.sys = f.file }, func(f *c03F) { f.sys = "" })},
+			c03Mut{"fn.sys-eq-name-vs-eq-file" + sfx, both(ln, func(f *c03F) { f.sys = f.name }, func(f *c03F) { f.sys = f.file })},
+			c03Mut{"fn.name-eq-sys-vs-empty" + sfx, both(ln, func(f *c03F) { f.name = f.sys }, func(f *c03F) { f.name = "" })},
+			c03Mut{"fn.name-eq-file-vs-empty" + sfx, both(ln, func(f *c03F) { f.name = f.file }, func(f *c03F) { f.name = "" })},
+			c03Mut{"fn.file-eq-name-vs-empty" + sfx, both(ln, func(f *c03F) { f.file = f.name }, func(f *c03F) { f.file = "" })},
+			c03Mut{"fn.file-eq-sys-vs-empty" + sfx, both(ln, func(f *c03F) { f.file = f.sys }, func(f *c03F) { f.file = "" })},
+			c03Mut{"fn.all-equal-vs-sys-empty" + sfx, both(ln, func(f *c03F) { f.sys, f.file = f.name, f.name }, func(f *c03F) { f.sys = "" })},
+			c03Mut{"fn.start-zero-vs-line" + sfx, both(ln, func(f *c03F) { f.start = 0 }, func(f *c03F) { f.start = 10 })},
+			c03Mut{"line.line-eq-col-vs-zero" + sfx, func(p *c03Pool) {
+				p.ls[0].lines[ln].line, p.ls[0].lines[ln].col = 7, 7
+				p.ls[1].lines[ln].line, p.ls[1].lines[ln].col = 7, 0
+			}},
+			c03Mut{"line.col-eq-line-vs-zero" + sfx, func(p *c03Pool) {
+				p.ls[0].lines[ln].line, p.ls[0].lines[ln].col = 7, 7
+				p.ls[1].lines[ln].line, p.ls[1].lines[ln].col = 0, 7
+			}},
+		)
+	}
+	ms = append(ms,
+		c03Mut{"map.file-eq-build-vs-empty", withM(func(m *c03M) { m.file = "" })}, // same binary: the build id decides
+		c03Mut{"map.build-eq-file-vs-empty", func(p *c03Pool) { // same binary: without a build id the file does
+			p.ms[0].build = p.ms[0].file
+			withM(func(m *c03M) { m.build = "" })(p)
+		}},
+		c03Mut{"map.offset-zero-vs-size", func(p *c03Pool) { p.ms[0].offset = 0; withM(func(m *c03M) { m.offset = m.size })(p) }},
+		c03Mut{"sample.label-val-eq-key-vs-empty", func(p *c03Pool) {
+			p.ss[0].label = map[string][]string{"k": {"k"}}
+			p.ss[1].locs = p.ss[0].locs
+			p.ss[1].label = map[string][]string{"k": {""}}
+		}},
+		c03Mut{"sample.num-unit-eq-key-vs-none", func(p *c03Pool) {
+			p.ss[0].numUnit = map[string][]string{"n": {"n"}}
+			p.ss[1].locs = p.ss[0].locs
+			p.ss[1].numUnit = nil
+		}},
+	)
 	return ms
 }
 
